@@ -12,6 +12,7 @@ import (
 	"github.com/PowerDNS/lightningstream/syncer/events"
 	"github.com/PowerDNS/lightningstream/syncer/hooks"
 	"github.com/PowerDNS/lightningstream/utils"
+	"github.com/PowerDNS/lightningstream/utils/verifhook"
 	"github.com/PowerDNS/lmdb-go/lmdb"
 	"github.com/c2h5oh/datasize"
 	"github.com/sirupsen/logrus"
@@ -45,6 +46,7 @@ func (s *Syncer) SendOnce(ctx context.Context, env *lmdb.Env) (txnID header.TxnI
 		inTxn = env.Update
 	}
 
+	verifhook.Yield(s.instanceID(), "send.before_txn", "")
 	err = inTxn(func(txn *lmdb.Txn) error {
 		// Call hook if defined
 		if s.hooks.BeforeRead != nil {
@@ -127,6 +129,7 @@ func (s *Syncer) SendOnce(ctx context.Context, env *lmdb.Env) (txnID header.TxnI
 		// We always return LMDB reading errors, as these are really unexpected
 		return 0, err
 	}
+	verifhook.Yield(s.instanceID(), "send.after_txn", "")
 	tDumped := time.Now()
 
 	// If no actual changes were made, LMDB will not record the transaction
@@ -190,6 +193,7 @@ func (s *Syncer) SendOnce(ctx context.Context, env *lmdb.Env) (txnID header.TxnI
 	metricSnapshotsLastTimestamp.WithLabelValues(s.name).Set(float64(ts.UnixNano()) / 1e9)
 	metricSnapshotsLastSize.WithLabelValues(s.name).Set(float64(len(out)))
 
+	verifhook.Yield(s.instanceID(), "send.before_store", name)
 	// Send it to storage
 	for i := 0; i < s.c.StorageRetryCount || s.c.StorageRetryForever; i++ {
 		metricSnapshotsStoreCalls.Inc()
@@ -263,6 +267,7 @@ func (s *Syncer) SendOnce(ctx context.Context, env *lmdb.Env) (txnID header.TxnI
 	// Tell the cleaner which snapshots made by other instances have been
 	// incorporated in the last snapshot that we sent.
 	s.cleaner.SetCommitted(s.lastByInstance)
+	verifhook.Yield(s.instanceID(), "send.after_store", name)
 
 	return txnID, nil
 }
